@@ -31,6 +31,8 @@ struct State {
     script_pos: usize,
     /// fail the draw with this index (0-based, counted since `begin_op`), after filling `fill_num/2` of the buffer
     fail_at: Option<(usize, u8)>,
+    /// fill the first draw of the operation (whatever its length) with this byte
+    first_fill: Option<u8>,
     draws_in_op: usize,
     log: Option<Vec<Draw>>,
 }
@@ -38,7 +40,7 @@ struct State {
 thread_local! {
     static STATE: RefCell<State> = const { RefCell::new(State {
         mode: Mode::Passthrough, seed: 0, counter: 0, script: Vec::new(), script_pos: 0,
-        fail_at: None, draws_in_op: 0, log: None,
+        fail_at: None, first_fill: None, draws_in_op: 0, log: None,
     }) };
 }
 
@@ -85,6 +87,11 @@ pub fn script(draws: Vec<Vec<u8>>) {
     });
 }
 
+/// The first draw of the current operation returns `byte` repeated, whatever length is requested.
+pub fn script_first_any_len(byte: u8) {
+    STATE.with(|s| s.borrow_mut().first_fill = Some(byte));
+}
+
 /// Begin a logged operation: resets the per-operation draw index, starts logging.
 pub fn begin_op() {
     STATE.with(|s| {
@@ -106,6 +113,7 @@ pub fn end_op() -> Vec<Draw> {
         s.script.clear();
         s.script_pos = 0;
         s.fail_at = None;
+        s.first_fill = None;
         s.log.take().unwrap_or_default()
     })
 }
@@ -158,6 +166,12 @@ unsafe extern "Rust" fn __getrandom_v03_custom(dest: *mut u8, len: usize) -> Res
 
         // 1. produce the bytes the draw would have had
         let mut scripted = false;
+        if idx == 0 {
+            if let Some(b) = s.first_fill {
+                buf.fill(b);
+                scripted = true;
+            }
+        }
         if s.script_pos < s.script.len() && s.script[s.script_pos].len() == len {
             let pos = s.script_pos;
             buf.copy_from_slice(&s.script[pos]);
